@@ -35,6 +35,8 @@ def main(tier, args):
     mr = {"unix-epoll": 3 if quick else 4, "unix-select": 3, "tcp-epoll": 3 if quick else 4}
     for tr, eng in (("unix", "epoll"), ("unix", "select"), ("tcp", "epoll")):
         jobs.append(("pipe:%s-%s" % (tr, eng), [pipe, tr, eng, str(depth), str(mr[tr + "-" + eng])]))
+    # lane: 4-5 pipelined keep-alive requests, every assignment of completion delays (out-of-order completion with gaps)
+    jobs.append(("pipe:unix-epoll-keeponly", [pipe, "unix", "epoll", "6" if quick else "8", "4" if quick else "5", "keeponly"]))
     # (1) parser half, engine I
     nsplit, nbytes, nmut = 8, 3, 2
     for s in range(nsplit):
